@@ -201,7 +201,7 @@ func buildStore(ms []sMetric) (*metrics.Store, []*metrics.Metric, error) {
 	return s, real, nil
 }
 
-var genNames = []string{"m", "m-x", "http-requests-total", "a-b-c-d", "total_x", "9bad", "", "m\xc3\xa9", "m:colon", "a.b", "lat-ms", "z", "pct%d"}
+var genNames = []string{"m", "m-x", "http-requests-total", "a-b-c-d", "total_x", "9bad", "", "m\xc3\xa9", "m:colon", "a.b", "lat-ms", "z", "pct%d", "request_latency_by_upstream_cluster_and_availability_zone_and_method_total"}
 var genKeys = []string{"k", "host", "a-b", "9k", "", "prog", "__r", "le2", "code"}
 var genVals = []string{"a", "", "x y", "\xff", "\xc3\xa9", "\"q\"", "a\nb", "v1", "v2", "b\\c", "50%", "a%20b", "%s%v", "{x}", "$1"}
 var genInts = []int64{0, 1, -1, 42, 9007199254740993, math.MaxInt64, math.MinInt64, -9007199254740993}
@@ -300,6 +300,8 @@ func genStore(r *rng, o storeGenOpts) []sMetric {
 			}
 		}
 		var pendingRev []string
+		// some metrics have long label values that agree for dozens of bytes and differ at the end
+		longVals := nk > 0 && r.chance(1, 6)
 		for j := 0; j < nl; j++ {
 			labels := make([]string, nk)
 			for q := range labels {
@@ -307,15 +309,16 @@ func genStore(r *rng, o storeGenOpts) []sMetric {
 				if o.noSeparator || o.cleanNames {
 					labels[q] = []string{"a", "v1", "v2", "b\\c", "\xc3\xa9", "q", "50%", "%v%s", "a%20b"}[r.intn(9)]
 				}
+				if longVals {
+					labels[q] = "eu-central-1.cluster-0042.rack-17.node-" + labels[q]
+				}
 			}
 			if pendingRev != nil {
 				labels, pendingRev = pendingRev, nil
 			}
 			if o.utf8Only {
 				for q := range labels {
-					if labels[q] == "\xff" {
-						labels[q] = "u"
-					}
+					labels[q] = strings.ReplaceAll(labels[q], "\xff", "u")
 				}
 			}
 			if seenL[strings.Join(labels, "\x00")] {
